@@ -27,3 +27,28 @@ func ParseDecimal(s string) int64 {
 	}
 	return n
 }
+
+// DayOf returns the day number (days since 1970-01-01) of a date string: either a real ISO date
+// "YYYY-MM-DD" or the symbolic executor's token "#" + 8-digit day number. -1 on syntax error.
+func DayOf(s string) int64 {
+	if len(s) == 9 && s[0] == '#' {
+		return ParseDecimal(s[1:])
+	}
+	if len(s) != 10 || s[4] != '-' || s[7] != '-' {
+		return -1
+	}
+	y, m, d := ParseDecimal(s[0:4]), ParseDecimal(s[5:7]), ParseDecimal(s[8:10])
+	if y < 0 || m < 1 || m > 12 || d < 1 || d > 31 {
+		return -1
+	}
+	// days from civil (Howard Hinnant)
+	if m <= 2 {
+		y--
+	}
+	era := y / 400
+	yoe := y - era*400
+	mp := (m + 9) % 12
+	doy := (153*mp+2)/5 + d - 1
+	doe := yoe*365 + yoe/4 - yoe/100 + doy
+	return era*146097 + doe - 719468
+}
